@@ -10,8 +10,28 @@ package compiler
 // inside it; TDEF: the definition of the alias it names - well-founded because validateTypedefs rejects
 // cyclic aliases). decreases visited(p): bounded by a visited collection extended before each call.
 
+// und(f, t): the type t resolves to in the model f, following typedefs; an included typedef is resolved in
+// the file that declares it (C18 "through typedefs"). UnderlyingType is verified against this definition
+// (one unfolding per use); inclname/paramname name the two halves of a dotted type name (string slicing is
+// not verified). tdwf(f): every typedef of f and of its includes, transitively, has a definition.
+//@ specfn und(Int, Int) Int
+//@ specfn inclname(Str) Str
+//@ specfn paramname(Str) Str
+//@ specfn tdwf(Int) Bool
+//@ func parser.Type.IncludeName
+//@   trusted
+//@   ensures result == inclname(t.Name)
+//@ func parser.Type.ParamName
+//@   trusted
+//@   ensures result == paramname(t.Name)
+//@ pred tdowner(f, t) = ite(inclname(t.Name) == "", f, f.ParsedIncludes[inclname(t.Name)])
+//@ pred tdhas(f, t) = (inclname(t.Name) == "" || has(f.ParsedIncludes, inclname(t.Name))) && has(tdowner(f, t).typedefIndex, paramname(t.Name))
+//@ define und(f, t) = ite(tdhas(f, t), und(tdowner(f, t), tdowner(f, t).typedefIndex[paramname(t.Name)].Type), t)
+//@ define tdwf(f) = f != nil && forallkey(k, has(f.typedefIndex, k) ==> f.typedefIndex[k] != nil && f.typedefIndex[k].Type != nil) && forallkey(i, has(f.ParsedIncludes, i) ==> tdwf(f.ParsedIncludes[i]))
 //@ func parser.Frugal.UnderlyingType
+//@   requires t != nil && tdwf(f)
 //@   decreases tree(t)
+//@   ensures result == und(f, t) && result != nil
 //@ func parser.Frugal.isValidType
 //@   decreases tree(typ)
 //@ func parser.Frugal.typedefCycle
@@ -22,8 +42,6 @@ package compiler
 //@   decreases tree(t)
 //@ func parser.getImports
 //@   decreases tree(t)
-//@ func parser.Auditor.checkType
-//@   decreases tree(oldType)
 //@ func parser.parseFrugal
 //@   decreases visited(visitedIncludes)
 
@@ -97,3 +115,138 @@ package compiler
 // Every range over a map reachable from compiler.Compile, with the reason its random order cannot reach
 // the output.
 //@ maprange dartlang.Generator.addToPubspec 0 sorted-keys
+
+// ---- audit (C18) ----------------------------------------------------------------------------------------------------
+// errflag(l): logger l has logged an error. Every checker only ever sets it (monotone), and each loop
+// iteration sets it exactly when the audited entity shows one of the documented breaking changes (the
+// per-iteration conditions are in /verif/checks/C18.json). tdiff(a, o, n): the (resolved) types o and n
+// differ; tdiffU is its one-step unfolding, which is what checkType is verified against.
+
+//@ specfn tdiff(Int, Int, Int) Bool
+//@ pred uo(a, o) = ptr(und(a.oldFrugal, o), "parser.Type")
+//@ pred un(a, n) = ptr(und(a.newFrugal, n), "parser.Type")
+//@ define tdiff(a, o, n) = tdiffU(a, o, n)
+//@ pred tdiffU(a, o, n) = ite(o == nil || n == nil, o != n, uo(a, o).Name != un(a, n).Name || tdiff(a, uo(a, o).KeyType, un(a, n).KeyType) || tdiff(a, uo(a, o).ValueType, un(a, n).ValueType))
+//@ pred flag(a) = errflag(a.logger)
+
+//@ immutable parser.Auditor.logger, parser.Auditor.oldFrugal, parser.Auditor.newFrugal
+
+//@ func parser.Auditor.checkType
+//@   requires a.logger != nil && tdwf(a.oldFrugal) && tdwf(a.newFrugal)
+//@   decreases tree(oldType)
+//@   ensures flag(a) == (old(flag(a)) || (!warn && tdiff(a, oldType, newType)))
+//@   modifies ghost(errflag, a.logger), alloc
+
+// normprefix(s) names the normalised form of a scope prefix (every {variable} replaced by {}); naming
+// assumption, the string manipulation itself is not verified.
+//@ specfn normprefix(Str) Str
+//@ func parser.normalizeScopePrefix
+//@   trusted
+//@   ensures result == normprefix(s)
+//@ func parser.Auditor.checkScopePrefix
+//@   requires a.logger != nil && tdwf(a.oldFrugal) && tdwf(a.newFrugal)
+//@   ensures flag(a) == (old(flag(a)) || normprefix(oldPrefix.String) != normprefix(newPrefix.String))
+//@   modifies ghost(errflag, a.logger), alloc
+
+// Checkers that may only warn never set the flag.
+//@ func parser.Auditor.checkNamespaces
+//@   requires a.logger != nil && tdwf(a.oldFrugal) && tdwf(a.newFrugal)
+//@   ensures flag(a) == old(flag(a))
+//@   modifies ghost(errflag, a.logger), alloc
+//@   loop 0 invariant a == a0 && newMap != nil
+//@   loop 1 invariant a == a0 && flag(a) == old(flag(a))
+//@ func parser.Auditor.checkConstants
+//@   requires a.logger != nil && tdwf(a.oldFrugal) && tdwf(a.newFrugal)
+//@   ensures flag(a) == old(flag(a))
+//@   modifies ghost(errflag, a.logger), alloc
+//@   loop 0 invariant a == a0 && newMap != nil
+//@   loop 1 invariant a == a0 && flag(a) == old(flag(a))
+
+// Monotone checkers (the flag is never cleared); what sets it is decided per iteration.
+//@ func parser.Auditor.checkScopes
+//@   requires a.logger != nil && tdwf(a.oldFrugal) && tdwf(a.newFrugal)
+//@   ensures old(flag(a)) ==> flag(a)
+//@   modifies ghost(errflag, a.logger), alloc
+//@   loop 0 invariant a == a0 && newMap != nil
+//@   loop 1 invariant a == a0 && (old(flag(a)) ==> flag(a))
+//@ func parser.Auditor.checkOperations
+//@   requires a.logger != nil && tdwf(a.oldFrugal) && tdwf(a.newFrugal)
+//@   ensures old(flag(a)) ==> flag(a)
+//@   modifies ghost(errflag, a.logger), alloc
+//@   loop 0 invariant a == a0 && newMap != nil
+//@   loop 1 invariant a == a0 && (old(flag(a)) ==> flag(a))
+//@ func parser.Auditor.checkEnums
+//@   requires a.logger != nil && tdwf(a.oldFrugal) && tdwf(a.newFrugal)
+//@   ensures old(flag(a)) ==> flag(a)
+//@   modifies ghost(errflag, a.logger), alloc
+//@   loop 0 invariant a == a0 && newMap != nil
+//@   loop 1 invariant a == a0 && (old(flag(a)) ==> flag(a))
+//@ func parser.Auditor.checkEnumValues
+//@   requires a.logger != nil && tdwf(a.oldFrugal) && tdwf(a.newFrugal)
+//@   ensures old(flag(a)) ==> flag(a)
+//@   modifies ghost(errflag, a.logger), alloc
+//@   loop 0 invariant a == a0 && newMap != nil
+//@   loop 1 invariant a == a0 && (old(flag(a)) ==> flag(a))
+//@ func parser.Auditor.checkStructLike
+//@   requires a.logger != nil && tdwf(a.oldFrugal) && tdwf(a.newFrugal)
+//@   ensures old(flag(a)) ==> flag(a)
+//@   modifies ghost(errflag, a.logger), alloc
+//@   loop 0 invariant a == a0 && newMap != nil
+//@   loop 1 invariant a == a0 && (old(flag(a)) ==> flag(a))
+//@ func parser.Auditor.checkServices
+//@   requires a.logger != nil && tdwf(a.oldFrugal) && tdwf(a.newFrugal)
+//@   ensures old(flag(a)) ==> flag(a)
+//@   modifies ghost(errflag, a.logger), alloc
+//@   loop 0 invariant a == a0 && newMap != nil
+//@   loop 1 invariant a == a0 && (old(flag(a)) ==> flag(a))
+//@ func parser.Auditor.checkServiceMethods
+//@   requires a.logger != nil && tdwf(a.oldFrugal) && tdwf(a.newFrugal)
+//@   ensures old(flag(a)) ==> flag(a)
+//@   modifies ghost(errflag, a.logger), alloc
+//@   loop 0 invariant a == a0 && newMap != nil
+//@   loop 1 invariant a == a0 && (old(flag(a)) ==> flag(a))
+//@ func parser.Auditor.checkFields
+//@   requires a.logger != nil && tdwf(a.oldFrugal) && tdwf(a.newFrugal)
+//@   ensures old(flag(a)) ==> flag(a)
+//@   modifies ghost(errflag, a.logger), alloc
+//@   loop 0 invariant a == a0 && oldMap != nil && newMap != nil && (old(flag(a)) ==> flag(a))
+//@   loop 1 invariant a == a0 && oldMap != nil && newMap != nil && (old(flag(a)) ==> flag(a))
+
+//@ func parser.makeFieldsMap
+//@   ensures result != nil && fresh(result)
+//@   ensures forall(i, 0, len(fields), has(result, fields[i].ID))
+//@   modifies alloc
+//@   loop 0 invariant fieldsMap != nil && fresh(fieldsMap) && fields == fields0 && 0 - 1 <= rangeindex && rangeindex <= len(fields) && forall(i, 0, rangeindex + 1, has(fieldsMap, fields[i].ID))
+
+// The audit fails exactly when a file does not parse or an error was logged.
+//@ func parser.Auditor.Audit
+//@   requires a.logger != nil
+//@   ensures ncalls("parser.ValidationLogger.ErrorsLogged") == 1 ==> (err != nil) == flag(a)
+//@   ensures ncalls("parser.ValidationLogger.ErrorsLogged") == 1 ==> ncalls("parser.ParseFrugal") == 2
+//@   ensures ncalls("parser.ValidationLogger.ErrorsLogged") == 1 ==> callarg("parser.ParseFrugal", 0, 0) == newFile && callarg("parser.ParseFrugal", 1, 0) == oldFile && a.newFrugal == callret("parser.ParseFrugal", 0, 0) && a.oldFrugal == callret("parser.ParseFrugal", 1, 0)
+//@   ensures ncalls("parser.ValidationLogger.ErrorsLogged") == 1 ==> ncalls("parser.Auditor.checkScopes") == 1
+//@   ensures ncalls("parser.ValidationLogger.ErrorsLogged") == 1 ==> callarg("parser.Auditor.checkScopes", 0, 1) == a.oldFrugal.Scopes && callarg("parser.Auditor.checkScopes", 0, 2) == a.newFrugal.Scopes
+//@   ensures ncalls("parser.ValidationLogger.ErrorsLogged") == 1 ==> ncalls("parser.Auditor.checkNamespaces") == 1
+//@   ensures ncalls("parser.ValidationLogger.ErrorsLogged") == 1 ==> callarg("parser.Auditor.checkNamespaces", 0, 1) == a.oldFrugal.Namespaces && callarg("parser.Auditor.checkNamespaces", 0, 2) == a.newFrugal.Namespaces
+//@   ensures ncalls("parser.ValidationLogger.ErrorsLogged") == 1 ==> ncalls("parser.Auditor.checkConstants") == 1
+//@   ensures ncalls("parser.ValidationLogger.ErrorsLogged") == 1 ==> callarg("parser.Auditor.checkConstants", 0, 1) == a.oldFrugal.Constants && callarg("parser.Auditor.checkConstants", 0, 2) == a.newFrugal.Constants
+//@   ensures ncalls("parser.ValidationLogger.ErrorsLogged") == 1 ==> ncalls("parser.Auditor.checkEnums") == 1
+//@   ensures ncalls("parser.ValidationLogger.ErrorsLogged") == 1 ==> callarg("parser.Auditor.checkEnums", 0, 1) == a.oldFrugal.Enums && callarg("parser.Auditor.checkEnums", 0, 2) == a.newFrugal.Enums
+//@   ensures ncalls("parser.ValidationLogger.ErrorsLogged") == 1 ==> ncalls("parser.Auditor.checkServices") == 1
+//@   ensures ncalls("parser.ValidationLogger.ErrorsLogged") == 1 ==> callarg("parser.Auditor.checkServices", 0, 1) == a.oldFrugal.Services && callarg("parser.Auditor.checkServices", 0, 2) == a.newFrugal.Services
+//@   ensures ncalls("parser.ValidationLogger.ErrorsLogged") == 1 ==> ncalls("parser.Auditor.checkStructLike") == 3
+//@   ensures ncalls("parser.ValidationLogger.ErrorsLogged") == 1 ==> callarg("parser.Auditor.checkStructLike", 0, 1) == a.oldFrugal.Structs && callarg("parser.Auditor.checkStructLike", 0, 2) == a.newFrugal.Structs && callarg("parser.Auditor.checkStructLike", 1, 1) == a.oldFrugal.Exceptions && callarg("parser.Auditor.checkStructLike", 1, 2) == a.newFrugal.Exceptions && callarg("parser.Auditor.checkStructLike", 2, 1) == a.oldFrugal.Unions && callarg("parser.Auditor.checkStructLike", 2, 2) == a.newFrugal.Unions
+//@   ensures ncalls("parser.ValidationLogger.ErrorsLogged") == 1 ==> (err != nil) == callret("parser.ValidationLogger.ErrorsLogged", 0, 0)
+//@   ensures ncalls("parser.ValidationLogger.ErrorsLogged") == 0 ==> err != nil
+//@   modifies *
+
+// The standard logger: LogError sets the flag, LogWarning leaves it, ErrorsLogged reports it.
+//@ func parser.stdOutLogger.LogError
+//@   ensures s.errorsLogged
+//@   modifies s.errorsLogged
+//@ func parser.stdOutLogger.LogWarning
+//@   ensures s.errorsLogged == old(s.errorsLogged)
+//@ func parser.stdOutLogger.ErrorsLogged
+//@   ensures result == s.errorsLogged
+
+//@ func parser.FieldModifier.String
